@@ -266,7 +266,11 @@ fn zc_full_sync<const N: usize, const M: usize>(case: &Case) -> Vec<i64> {
 fn crossbeam<const N: usize, const M: usize>(case: &Case) -> Vec<i64> {
     let chan = ChannelUniMoveCrossbeam::<u32, N, M>::new("c");
     let mut locs = LocMap::new();
-    for i in 0..M { locs.cell(NOTIFIED_BASE + i, 300 + i as i64); locs.cell(NOTIFIED_BASE + 20 + i, 320 + i as i64); }
+    sm_locs(chan.verif_parts(), &mut locs);
+    // the channel's yield points (crossbeam's own queue has no hooks: each of its calls is one step, taken at the yield point before it):
+    // 401 len() of send / pending_items_count, 402 try_send, 403 is_full() of send_with*, 404 try_recv
+    let base = Arc::as_ptr(&chan) as usize;
+    for j in 1..=4usize { locs.cell(base + j, 400 + j as i64); }
     locs.cell(2, 2);
     run_generic(case, chan, locs, None, |_c| vec![])
 }
